@@ -20,6 +20,7 @@ CONSTANTS
  CowIndex = FALSE
  InvAfterDel = FALSE
  NormKey = TRUE
+ LockStyle = "global"
 INIT MInit
 NEXT MNext
 VIEW MView
